@@ -54,6 +54,7 @@ _PROBE = [] if os.environ.get("C16_PROBE") else None
 def chk(cond, sig, msg=""):
     if cond:
         return
+    sig = sig() if callable(sig) else sig
     m = msg() if callable(msg) else msg
     if _PROBE is not None:
         _PROBE.append((sig, m))
@@ -153,6 +154,21 @@ def rigid_clause(T, d, sigbase, who):
     return R, T[:d, d]
 
 
+def open_hull_suffix(ps):
+    """Signature suffix for containment failures of volumes that trimesh derives from `convex.convex_hull`
+    (oriented_bounds; hull_points(obj) for PointCloud / Trimesh, hence bounding_sphere / bounding_cylinder): when that
+    hull itself is open (C16.hull|watertight|...), vertices referenced only by the dropped faces vanish and the
+    volume misses them. Computed only after a clause has already failed."""
+    if ps.d != 3:
+        return ""
+    try:
+        if tc.convex_hull(ps.P.copy()).is_watertight:
+            return ""
+    except Exception:  # noqa
+        return ""
+    return "|open_hull|" + classify_open_hull(ps)[0]
+
+
 def shortcut_allowance(R, ps):
     """transformations.transform_points (used by bounds.oriented_bounds to place the box centre) and
     Trimesh.apply_transform document an identity shortcut: a matrix within 1e-8 (elementwise) of the identity is not
@@ -175,7 +191,7 @@ def box_clauses(ps, T, ext, sigbase, who, pts=None, extra_tol=0.0):
     Q = P @ R.T + t
     tol = ps.tol + extra_tol + (shortcut_allowance(R, ps) if d == 3 else 0.0)
     over = float((np.abs(Q) - ext / 2.0).max())
-    chk(over <= tol, f"{sigbase}|{who}|contains", lambda: f"point sticks out of the box by {over:.3e} (tol {tol:.3e}, diam {ps.diam:.3e}, extents {ext.tolist()})")
+    chk(over <= tol, lambda: f"{sigbase}|{who}|contains" + open_hull_suffix(ps), lambda: f"point sticks out of the box by {over:.3e} (tol {tol:.3e}, diam {ps.diam:.3e}, extents {ext.tolist()})")
     span = Q.max(axis=0) - Q.min(axis=0)
     slack = float(np.abs(span - ext).max())
     chk(slack <= 2 * tol, f"{sigbase}|{who}|tight", lambda: f"extents {ext.tolist()} vs span of transformed points {span.tolist()} (diff {slack:.3e}, tol {2*tol:.3e})")
@@ -406,11 +422,27 @@ def obb_guarded(fn, ps, who):
     """oriented_bounds is built on convex.convex_hull: when that hull comes back open (see C16.hull|watertight|...)
     the silhouette search finds no edges and numpy raises ValueError('zero-size array ...'). Give that consequence
     its own signature instead of the generic exception bucket; anything else goes to the runner unchanged."""
+    coplanar = bool(ps.d == 3 and ps.thick <= 1e-9 * max(ps.sv[0], 1e-300))
+
+    def out(sig, msg):
+        if _PROBE is not None:
+            _PROBE.append((sig, msg))
+            raise Raised()
+        raise Violation(sig, msg)
+
     try:
         return fn()
+    except TypeError as e:
+        # `min_2D` stays None when every candidate normal is skipped by `if not side.any(): continue`
+        # ("for coplanar points this could be empty" in the source)
+        if "NoneType" not in str(e):
+            raise
+        out(f"C16.box|raises_TypeError|{'coplanar_input' if coplanar else 'spanning_input'}|{who}", f"TypeError: {e} (oriented_bounds found no usable candidate direction)")
     except ValueError as e:
         if "zero-size array" not in str(e) or ps.d != 3:
             raise
+        if coplanar:
+            out(f"C16.box|raises_ValueError|coplanar_input|{who}", f"ValueError: {e} (no silhouette edges on the flat 'QJ' hull of coplanar points)")
         try:
             open_hull = not tc.convex_hull(ps.P.copy()).is_watertight
         except Exception:  # noqa
@@ -418,11 +450,7 @@ def obb_guarded(fn, ps, who):
         if not open_hull:
             raise
         why, txt = classify_open_hull(ps)
-        sig = f"C16.box|raises_ValueError|open_hull|{why}|{who}"
-        if _PROBE is not None:
-            _PROBE.append((sig, txt))
-            raise Raised()
-        raise Violation(sig, f"ValueError: {e}; convex_hull of the same points is not watertight: {txt}")
+        out(f"C16.box|raises_ValueError|open_hull|{why}|{who}", f"ValueError: {e}; convex_hull of the same points is not watertight: {txt}")
 
 
 @body("C16.box")
@@ -511,7 +539,7 @@ def sphere_clauses(ps, center, radius, sigbase, who, general_ok, ctx=None):
     over = float(dist.max() - r)
     # the radius is the largest distance from the chosen centre, computed in coordinates normalised by the
     # smallest extent and mapped back: round-off only
-    chk(over <= ps.tol + 1e-12 * r, f"{sigbase}|{who}|contains", lambda: f"farthest point {over:.3e} outside radius {r:.6e} (tol {ps.tol:.3e})")
+    chk(over <= ps.tol + 1e-12 * r, lambda: f"{sigbase}|{who}|contains" + open_hull_suffix(ps), lambda: f"farthest point {over:.3e} outside radius {r:.6e} (tol {ps.tol:.3e})")
     mb = miniball(ps.P, seed=len(ps.P))
     k = mb["nsupport"]
     general = bool(general_ok and mb["certified"] and mb["n_on_boundary"] == k and mb["min_lambda"] >= 1e-3)
@@ -573,8 +601,8 @@ def cylinder_clauses(ps, T, radius, height, sigbase, who):
     # shortcut (matrix within 1e-8 of I is not applied) is reachable when the optimiser ends within 1e-8 rad of the
     # z axis: same narrow allowance as for the boxes
     sa = shortcut_allowance(R, ps)
-    chk(over_r <= ps.tol + sa + 1e-12 * r, f"{sigbase}|{who}|radial", lambda: f"point {over_r:.3e} outside radius {r:.6e} (tol {ps.tol + sa:.3e})")
-    chk(over_z <= ps.tol + sa, f"{sigbase}|{who}|axial", lambda: f"point {over_z:.3e} beyond half height {hgt/2:.6e} (tol {ps.tol + sa:.3e})")
+    chk(over_r <= ps.tol + sa + 1e-12 * r, lambda: f"{sigbase}|{who}|radial" + open_hull_suffix(ps), lambda: f"point {over_r:.3e} outside radius {r:.6e} (tol {ps.tol + sa:.3e})")
+    chk(over_z <= ps.tol + sa, lambda: f"{sigbase}|{who}|axial" + open_hull_suffix(ps), lambda: f"point {over_z:.3e} beyond half height {hgt/2:.6e} (tol {ps.tol + sa:.3e})")
     return int((rad < r * (1 - 1e-6)).sum())
 
 
@@ -728,6 +756,11 @@ def s_ties(ctx):
     ctx.enumerate("C16.hull", itertools.chain(cube("points", {}), cube("cloud", far)), label="hull_all_subsets_of_cube_corners")
     ctx.enumerate("C16.box", itertools.chain(cube("cloud", {}), cube("points", far)), label="box_all_subsets_of_cube_corners")
     ctx.enumerate("C16.box", itertools.chain(grid({}), grid({"rot": 7, "scale": 1e3})), label="box2d_all_subsets_of_3x3_grid")
+    def grid3(axis):
+        for pts in _grid_subsets():
+            yield {"src": "points", "planar3": True, "axis": axis, "level": 1.0, "spec": {"d": 2, "kind": "explicit", "pts": pts}}
+
+    ctx.enumerate("C16.box", itertools.chain(grid3(0), grid3(2)), label="box_planar3_all_subsets_of_3x3_grid_in_two_axis_planes")
     ctx.enumerate("C16.sphere", itertools.chain(cube("points", {}), grid({}), grid(far)), label="sphere_all_subsets_of_cube_corners_and_3x3_grid")
     ctx.enumerate("C16.cylinder", cube("cloud", {}), label="cylinder_all_subsets_of_cube_corners")
 
